@@ -144,6 +144,83 @@ def job_backend(arg):
     return tn, "backend", n, fails
 
 
+def protocol_cases():
+    """finite cases of the call protocol: option namespaces used one after the other, array layouts, signed-zero inputs,
+    correct rounding of functions whose exact value is known"""
+    warnings.simplefilter("ignore")
+    import functional_algorithms.utils as U
+
+    from vf.contracts.C11_bounded import rn
+    from fractions import Fraction
+
+    out = {}
+
+    def rec(name, **kw):
+        out.setdefault(name, []).append({k: (v if isinstance(v, (str, int, list)) else repr(v)) for k, v in kw.items()})
+
+    names = ["namespace-options-are-per-instance", "array-layout", "signed-zero-input", "correct-rounding[square,default-options]", "correct-rounding[square,extra_prec=1]", "correct-rounding[exp2-at-integers,default-options]"]
+    for nm in names:
+        out[nm] = []
+    with numpy.errstate(all="ignore"):
+        # (a) numpy_with_mpmath namespaces: each instance applies ITS options, whatever was used before in the process
+        sub = numpy.float32(1e-40)
+        for first, second in ((True, False), (False, True)):
+            r1 = numpy.asarray(U.numpy_with_mpmath(flush_subnormals=first).negative(sub))
+            r2 = numpy.asarray(U.numpy_with_mpmath(flush_subnormals=second).negative(sub))
+            for fl, r in ((first, r1), (second, r2)):
+                want_zero = bool(fl)
+                if bool(r == 0) != want_zero:
+                    rec("namespace-options-are-per-instance", order="flush_subnormals=%s then %s" % (first, second), flush=fl, got=r)
+        for mults in ((0, 3), (3, 0)):
+            vs = [U.numpy_with_mpmath(extra_prec_multiplier=m).exp2 for m in mults]
+            for m, v in zip(mults, vs):
+                if v.extra_prec_multiplier != m:
+                    rec("namespace-options-are-per-instance", order="extra_prec_multiplier=%s then %s" % mults, asked=m, got=v.extra_prec_multiplier)
+        # (b) array layouts: result[i, j] is the function of input[i, j]
+        v = U.vectorize_with_mpmath(lambda x: x + x, flush_subnormals=False)
+        base = numpy.arange(1, 13, dtype=numpy.float32).reshape(3, 4) / numpy.float32(8)
+        for label, arr in (("C-order", base), ("transposed view", base.T), ("Fortran order", numpy.asfortranarray(base)), ("strided view", base[:, ::2]), ("swapaxes of 3-D", numpy.arange(24, dtype=numpy.float32).reshape(2, 3, 4).swapaxes(0, 2))):
+            try:
+                r = numpy.asarray(v(arr))
+                if r.shape != arr.shape or not numpy.array_equal(r, arr + arr):
+                    rec("array-layout", layout=label, got=r.tolist(), want=(arr + arr).tolist())
+            except Exception as e:
+                rec("array-layout", layout=label, raised=repr(e)[:200])
+        # (c) signed zeros are inputs too
+        for tn in TYPES:
+            t = getattr(numpy, tn)
+            ns = U.numpy_with_mpmath(flush_subnormals=False)
+            r = numpy.asarray(ns.negative(t(0.0)))
+            if not numpy.signbit(r):
+                rec("signed-zero-input", t=tn, call="negative(+0.0)", got=r, want="-0.0")
+            r = numpy.asarray(ns.arctan2(t(-0.0), t(-1.0)))
+            if not (r < 0):
+                rec("signed-zero-input", t=tn, call="arctan2(-0.0, -1.0)", got=r, want="-pi")
+        # (d) correct rounding where the exact value is known
+        rng = numpy.random.default_rng(core.SEED)
+        for tn in TYPES:
+            t = getattr(numpy, tn)
+            for label, kw in (("correct-rounding[square,default-options]", {}), ("correct-rounding[square,extra_prec=1]", dict(extra_prec=1))):
+                sq = U.numpy_with_mpmath(flush_subnormals=False, **kw).square
+                bad = 0
+                for _ in range(400):
+                    x = t(rng.uniform(0.5, 2.0)) * t(2.0) ** int(rng.integers(-6, 6))
+                    want = rn(t, Fraction(float(x)) ** 2)
+                    r = numpy.asarray(sq(x))
+                    if r.tobytes() != want.tobytes():
+                        bad += 1
+                        if bad <= 2:
+                            rec(label, t=tn, x=x, got=r, want=want)
+            e2 = U.numpy_with_mpmath(flush_subnormals=False).exp2
+            fi = numpy.finfo(t)
+            for k in (1, 10, int(fi.maxexp) - 1, int(fi.minexp) + 1, -3):
+                r = numpy.asarray(e2(t(k)))
+                want = numpy.ldexp(t(1), k)
+                if r.tobytes() != want.tobytes():
+                    rec("correct-rounding[exp2-at-integers,default-options]", t=tn, x=k, got=r, want=want)
+    return out
+
+
 def run(rep, tier, prop="C15"):
     from vf.contracts.C13 import sample_bits
 
@@ -174,6 +251,14 @@ def run(rep, tier, prop="C15"):
             lst = agg.get((tn, name), [])
             fnname = {"_normalize-contract": "mpmath.libmp.libmpf._normalize"}.get(name, "utils.mpf2float" if what == "mpf" else "utils.vectorize_with_mpmath")
             rep.add(core.decided("%s/bounded/%s/%s" % (prop, name, tn), prop, not lst and seen.get((tn, what), 0) > 0, functions=(fnname,), text="bounded stand-in: %s on %d inputs" % (name, seen.get((tn, what), 0)), detail=dict(failures=lst[:3], inputs=seen.get((tn, what), 0)), kind="bounded", solver="native-run", meta=dict(part="bounded", fails=lst[:3], t=tn, name=name)))
+    try:
+        pc = protocol_cases()
+    except Exception:
+        import traceback
+
+        pc = {"protocol-engine": [dict(raised=traceback.format_exc()[-600:])]}
+    for name, lst in pc.items():
+        rep.add(core.decided("%s/bounded/protocol/%s" % (prop, name), prop, not lst, functions=("utils.numpy_with_mpmath.__getattr__" if name.startswith("namespace") else "utils.vectorize_with_mpmath",), text="bounded stand-in (finite cases): %s" % name, detail=dict(failures=lst[:4]), kind="bounded", solver="native-run", meta=dict(part="bounded", fails=lst[:4], t="-", name="protocol/" + name)))
     rep.bounded.append(dict(what="real mpmath: _normalize against the contract assumed by the proof; mpf2float on directed multiprecision values against an exact reference; identity / negation / doubling through vectorize_with_mpmath for the three flush settings", bound="%d directed mpf values per format; every float16 value (thorough; a quarter plus the boundary ranges in the quick tier), float32/float64 samples over every exponent-field value" % per, counted_as_proved=False))
 
 
@@ -182,4 +267,4 @@ def replay(o):
     if meta.get("part") != "bounded":
         return None
     fails = meta.get("fails") or []
-    return dict(replayed=bool(fails), failing_inputs=fails, witness_class="%s %s" % (meta.get("name"), meta.get("t")))
+    return dict(replayed=bool(fails), failing_inputs=fails, witness_class=("%s %s" % (meta.get("name"), meta.get("t"))) if meta.get("t") != "-" else str(meta.get("name")))
